@@ -708,7 +708,9 @@ def run (mode : Mode) (doc : Forest) : Result :=
     let common := commonDiags ps pl.2
     let panic := anyPanic ps
     match mode with
-    | .omit => { built := true, panic, objects := ps, support := none, diags := common }
+    | .omit =>
+      -- the support code is built only for its diagnostics and discarded (repair of F21, /repo c47e7fb)
+      { built := true, panic, objects := ps, support := none, diags := common ++ (cxxAll ps).diags }
     | .generate =>
       let c := cxxAll ps
       { built := true, panic, objects := ps
